@@ -2,6 +2,12 @@ package props
 
 import (
 	"fmt"
+	"os"
+	"path/filepath"
+	"sort"
+	"strings"
+
+	"github.com/akalin/gopar/par1"
 
 	"verifh/core"
 	"verifh/envfs"
@@ -18,6 +24,7 @@ type p1Case struct {
 	VolDmg  []int         `json:"voldmg,omitempty"` // per volume: 0 ok, 1 deleted, 2 one byte corrupted, 3 replaced by a foreign set's volume, 4 truncated, 5 valid hashes but wrong parity data
 	DC      bool          `json:"dc,omitempty"`
 	Extra   []string      `json:"extra,omitempty"`
+	DiskTwin bool         `json:"disktwin,omitempty"` // additionally run the same directory through the exported API on a real directory
 }
 
 func applyP1(s *scen.P1Set, c *p1Case, seed int64) *envfs.FS {
@@ -116,9 +123,16 @@ func runP1(c *p1Case, r *core.Rec, cl p1Clauses) {
 	fs := applyP1(s, c, r.Seed)
 	t := s.Truth(fs)
 	var o, oa scen.P1Obs
+	var twinStart *envfs.FS
+	if c.DiskTwin {
+		twinStart = fs.Clone()
+	}
 	s.ObserveVerify(fs.Clone(), false, &o)
 	s.ObserveVerify(fs.Clone(), true, &oa)
 	s.ObserveRepair(fs, c.DC, &o)
+	if twinStart != nil && o.VerifyPanic == nil && oa.VerifyPanic == nil && o.RepairPanic == nil {
+		diskTwinP1(s, twinStart, &o, &oa, c, r)
+	}
 	r.AddStates(1)
 	r.AddTransitions(3)
 	r.Outcome(fmt.Sprintf("v:%s/%+v va:%s/%v r:%s/%d", errClass(o.VerifyErr), o.Result.FileCounts, errClass(oa.VerifyErr), oa.Result.AllDataOk, errClass(o.RepairErr), len(o.RepairedPaths)))
@@ -311,6 +325,7 @@ func c04Deviate(g *core.Gen, cfg scen.P1Config, D int) {
 				}
 			}
 			c.DC = d%2 == 1
+			c.DiskTwin = d <= 1
 			g.Emit(c)
 		})
 	}
@@ -330,4 +345,48 @@ func init() {
 			runP1(ci.(*p1Case), r, p1Clauses{RoundTrip: true})
 		},
 	})
+}
+
+// diskTwinP1: see diskTwinP2.
+func diskTwinP1(s *scen.P1Set, start *envfs.FS, o, oa *scen.P1Obs, c *p1Case, r *core.Rec) {
+	twinSeq++
+	root := filepath.Join(workerScratch(), fmt.Sprintf("twin1-%d", twinSeq))
+	os.RemoveAll(root)
+	defer os.RemoveAll(root)
+	materialize(root, start.Files)
+	index := filepath.Join(root, s.Index)
+	var vres par1.VerifyResult
+	var verr, rerr error
+	var rres par1.RepairResult
+	if pi := core.Catch(func() { vres, verr = par1.Verify(index, par1.VerifyOptions{VerifyAllData: true}) }); pi != nil {
+		r.Violate("disk-verify-panic:"+pi.Frame, pi.Value+"\n"+pi.Stack)
+		return
+	}
+	if pi := core.Catch(func() { rres, rerr = par1.Repair(index, par1.RepairOptions{DoubleCheck: c.DC}) }); pi != nil {
+		r.Violate("disk-repair-panic:"+pi.Frame, pi.Value+"\n"+pi.Stack)
+		return
+	}
+	r.AddTransitions(2)
+	r.Count("disk_twins", 1)
+	if (verr == nil) != (oa.VerifyErr == nil) || (verr == nil && vres != oa.Result) {
+		r.Violatef("disk-run-differs-from-in-memory-run:verify", "real directory: %v %+v; in-memory: %v %+v", verr, vres, oa.VerifyErr, oa.Result)
+	}
+	if (rerr == nil) != (o.RepairErr == nil) {
+		r.Violatef("disk-run-differs-from-in-memory-run:repair-error", "real directory: %v; in-memory: %v", rerr, o.RepairErr)
+	}
+	var a, b []string
+	for _, p := range rres.RepairedPaths {
+		a = append(a, strings.TrimPrefix(filepath.Clean(p), root))
+	}
+	for _, p := range o.RepairedPaths {
+		b = append(b, filepath.Clean(p))
+	}
+	sort.Strings(a)
+	sort.Strings(b)
+	if strings.Join(a, "|") != strings.Join(b, "|") {
+		r.Violatef("disk-run-differs-from-in-memory-run:repaired-paths", "real directory: %v; in-memory: %v", a, b)
+	}
+	if d := envfs.Diff(readTree(root), o.After); len(d) > 0 {
+		r.Violatef("disk-run-differs-from-in-memory-run:final-directory", "after Repair the real directory differs from the in-memory one in %v", d)
+	}
 }
